@@ -335,5 +335,6 @@ fn tag(h: &[Stmt]) -> u32 {
     let res3 = match q { Some(Stmt::Query(Expr::And(a, b))) => {
         let col = |e: &Expr| -> Vec<usize> { let mut v = vec![]; e.walk(&mut |x| if let Expr::Col(i) = x { v.push(*i) }); v };
         let (ca, cb) = (col(a), col(b)); ca.iter().any(|c| cb.contains(c)) }, _ => false };
-    if h.iter().any(|s| matches!(s, Stmt::Upd(..))) { 2 } else if h.iter().any(|s| matches!(s, Stmt::Del(..))) { 1 } else if res3 { 3 } else { 0 }
+    let late_null = { let mut seen_null = false; let mut hit = false; for s in h { match s { Stmt::Ins(r) => if r[1..].iter().any(|v| v.is_null()) { seen_null = true; }, Stmt::Create(_) => if seen_null { hit = true; }, _ => {} } } hit };
+    if h.iter().any(|s| matches!(s, Stmt::Upd(..))) { 2 } else if h.iter().any(|s| matches!(s, Stmt::Del(..))) { 1 } else if res3 { 3 } else if late_null { 4 } else { 0 }
 }
